@@ -67,6 +67,13 @@ class C06(Prop):
             a, b = rng.sample(POOL, 2)
             yield {"target": target, "orig": [a, b], "defaults": {b: 7}, "ctor": [[a, b]], "ctorInvalid": True, "batches": [], "mapOver": [], "omit": [], "seedvals": 1,
                    "use_first": False, "use_between": False}
+        # whatever the seed: a constructor rename followed by with_inputs() calls that chain onto it, played in a FRESH interpreter (the first
+        # rename call of a process is a call like any other)
+        for target in ("fn", "route", "interrupt"):
+            a, b, c = rng.sample(POOL, 3)
+            base = {"target": target, "defaults": {}, "mapOver": [], "omit": [], "seedvals": rng.randint(0, 50), "use_first": False, "use_between": False, "freshProc": True}
+            yield dict(base, orig=[a, b], ctor=[[a, b], [b, a]], batches=[[[a, b], [b, a]]])          # a swap at construction, undone by a later swap
+            yield dict(base, orig=[a], defaults={a: 11}, ctor=[[a, b]], batches=[[[b, c]]])             # a stepping stone: a -> b at construction, b -> c later
         # whatever the seed: TWIN histories — the same (old, new) pairs applied once as SEQUENTIAL calls on one node and once as ONE parallel
         # batch on another node of the same process (a swap / a shift): what a history means depends on how it was batched
         for target in ("fn", "graph", "fn-out", "interrupt"):
@@ -152,6 +159,19 @@ class C06(Prop):
     def impl(self, case: dict) -> Any:
         from hypergraph.nodes._rename import RenameError
 
+        if case.get("freshProc"):
+            # the history is played in a FRESH interpreter: its first with_*() call is the first rename call of the whole process
+            import json
+            import os
+            import subprocess
+            import sys
+
+            root = os.path.dirname(os.path.dirname(os.path.dirname(os.path.abspath(__file__))))
+            r = subprocess.run([sys.executable, "-m", "harness.freshrun", "C06"], input=json.dumps(case), capture_output=True, text=True, cwd=root, timeout=120,
+                               env=dict(os.environ))
+            if "@@OBS@@" not in r.stdout:
+                raise RuntimeError(f"fresh-process run failed: {r.stderr[-400:]}")
+            return json.loads(r.stdout.split("@@OBS@@", 1)[1])
         env = Env()
         if case.get("ctorInvalid"):
             try:
